@@ -98,6 +98,7 @@ func (ex *Exec) runInit(l *Loaded) *State {
 	ex.res = &JobResult{Asserts: map[string]int{}, Covers: map[string]int{}}
 	ex.cfg = JobConfig{Unwind: 100000}
 	ex.vioSeen = map[string]bool{}
+	ex.vioCount = map[string]int{}
 	ex.funcs = map[string]bool{}
 	ex.cuts = map[string]bool{}
 	var paths []string
@@ -142,6 +143,7 @@ func (ex *Exec) runJob(l *Loaded, tmpl *State, cfg JobConfig) (res *JobResult) {
 	ex.res = res
 	ex.cfg = cfg
 	ex.vioSeen = map[string]bool{}
+	ex.vioCount = map[string]int{}
 	ex.funcs = map[string]bool{}
 	ex.cuts = map[string]bool{}
 	ex.cutWithin = map[string]string{}
